@@ -106,7 +106,7 @@ def cases(ctx: Ctx) -> list[dict]:
     exh.sort(key=_key)
     rng.shuffle(exh)
     if q:   # a stratified sample of the enumerated families
-        quota = {"full": 60, "attr": 100}
+        quota = {"full": 60, "attr": 100, "uattr": 60, "clo": 90}
         picked = []
         for c in exh:
             if quota.get(c["alpha"], 0) > 0:
@@ -132,6 +132,8 @@ def _enclosing(prog: list, path: tuple) -> list[str]:
     for j in range(0, len(path) - 2, 2):
         s = blk[path[j + 1] - 1]
         out.append(s["t"])
+        if path[j + 2] == 3:      # the body of an inner function
+            break
         blk = s["a"] if path[j + 2] == 1 else s["b"]
     return out
 
@@ -149,6 +151,8 @@ def _edge_class(c: dict, kinds: dict, src: tuple, dst: tuple) -> tuple[str, bool
         return "ret-in-for<-any", True           # the value returned from inside a for loop
     if ks in ("lstore", "dstore"):
         return f"{ks}<-any", True                # a subscript store that is reported without what it reads
+    if kd.startswith("w.") and not ks.startswith("w."):
+        return "use<-nonlocal-store", False      # a read of a captured variable whose last definition is the body of w
     if ks == "while" and dst[:len(src)] == src and len(dst) > len(src):
         return "while<-loop-carried", False      # the loop test reads a definition made by the loop body
     return f"{ks}<-{kd}", False
